@@ -100,6 +100,11 @@ fn run_case(line: &str) -> String {
                 Err(e) => format!("{{\"ok\":false,\"err\":{},\"trace\":{},\"vars\":{}}}", esc(&format!("{}", e)), esc(&tr), esc(&vars)),
             }
         }
+        "macroctx" => {
+            // the context built by the public create_context! macro (variables of several types and a function)
+            let ctx = create_context!("x" => 5, "s" => "str", "b" => true, "l" => vec![Value::from(1), Value::from(2)], "f" => Arc::new(|p: Vec<Value>| Ok(Value::from(p.len() as i64 + 40))), "y" => 2.5);
+            match execute(&s, ctx) { Ok(v) => format!("{{\"ok\":true,\"val\":{}}}", esc(&format!("{:?}", v))), Err(e) => format!("{{\"ok\":false,\"err\":{}}}", esc(&format!("{}", e))) }
+        }
         "conv" => conv(&s),
         _ => "{\"bad\":true}".to_string(),
     }
